@@ -549,91 +549,49 @@ def r2_13_xor_addresses(ctx, prog, rule="R2.13"):
                    "is applied on both sides (xor_encode: xor then encode; xor_decode: decode then xor) with the transaction id "
                    "taken from the header of the message being encoded / decoded")
     fn = "stun_rs::common::socket_addr_xor"
-    paths, info = C.explore_fn(prog, fn, "x", [r"\{closure"])
+    # concrete iterator models: the loops over the 4 / 16 octets unroll, whatever idiom they are written in
+    paths, info = C.explore_fn(prog, fn, "x", [r"\{closure"], concrete_iters=True)
     body = info["body"]
     ctx.fn(body)
-    IT4 = ("IterMut::enumerate", ("slice::iter_mut", ("Ipv4Addr::octets", (("SocketAddr::ip", "top:addr"), ".0"))))
-    IT6 = ("IterMut::enumerate", ("slice::iter_mut", ("Ipv6Addr::octets", (("SocketAddr::ip", "top:addr"), ".0"))))
-    want_iters = {"V4": [IT4], "V6": [("Enumerate::take", IT6, 4), ("Take::skip", ("Enumerate::take", IT6, 16), 4)]}
     port = ("op:BitXor", ("SocketAddr::port", "top:addr"), ("op:Shr", COOKIE_U32, 16))
     fams = {}
     for pa in paths:
         fam = pa.choice(r"^variant\(ret:ip@")
+        n = {"V4": 4, "V6": 16}.get(fam)
         r = C.expr_of(pa, pa.ret)
+        probs = []
+        if info["bounded"] or n is None:
+            probs.append("exploration incomplete or unknown family %s" % fam)
         okr = isinstance(r, tuple) and r[0] == "SocketAddr::new" and r[2] == port and isinstance(r[1], tuple) and r[1][0] == "IpAddr::%s" % fam \
             and "octets" in repr(r[1])
-        # per loop: the iterator expression and the value written through the element reference
-        loops = {}
-        for i, e in enumerate(pa.log):
-            if e[0] == "write" and str(e[1]).startswith("obj:ret:next@") and str(e[1]).endswith(".0.1"):
-                v = C.expr_of(pa, e[3], 0, i)
-                if isinstance(v, tuple) and v[0] == "op:BitXor" and isinstance(v[1], tuple) and len(v[1]) == 2 and v[1][1] == ".0.1.*":
-                    it = v[1][0][1] if isinstance(v[1][0], tuple) and len(v[1][0]) == 2 else None
-                    nxt = v[1][0]
-                    loops[repr(it)] = (it, nxt, v[2])
-                else:
-                    loops["?%d" % i] = (None, None, v)
-        # abstractly an iterator may be exhausted at once, so a path may contain fewer loops: collect over the family
-        acc = fams.setdefault("family=%s" % fam, {"probs": [], "found": set(), "pa": pa})
         if not okr:
-            acc["probs"].append("result is %s" % show(r)[:100])
-        for key, (it, nxt, mask) in loops.items():
-            if it is None or it not in want_iters.get(fam, []):
-                acc["probs"].append("unexpected XOR loop / write: %s" % show(it if it is not None else mask)[:80])
-                continue
-            idx = (nxt, ".0.0")
-            if it[0] == "Take::skip":
-                ok = mask == "top:elem"          # transaction_id[i - 4]: index expression checked on the MIR below
-            else:
-                ok = mask == ("op:Shr", COOKIE_U32, ("op:Sub", 24, ("op:Mul", idx, 8)))
-            if ok:
-                acc["found"].add(repr(it))
-            else:
-                acc["probs"].append("mask over %s is %s" % (show(it)[:50], show(mask)[:100]))
-    for k, acc in fams.items():
-        fam = k.split("=")[1]
-        for it in want_iters.get(fam, []):
-            if repr(it) not in acc["found"]:
-                acc["probs"].append("no loop over %s" % show(it)[:80])
-    fams = {k: (sorted(set(acc["probs"])), acc["pa"]) for k, acc in fams.items()}
+            probs.append("result is %s" % show(r)[:100])
+        masks = {}
+        for i, e in enumerate(pa.log):
+            if e[0] == "write-elem" and len(e[2]) == 1:
+                m = re.match(r"\[(\d+)\]$", str(e[2][0]))
+                v = C.expr_of(pa, e[3], 0, i)
+                if m and isinstance(v, tuple) and v[0] == "op:BitXor" and isinstance(v[1], str) and v[1].endswith("[%s]" % m.group(1)) and "octets" in v[1]:
+                    masks.setdefault(int(m.group(1)), []).append(v[2])
+                else:
+                    probs.append("octet write %s := %s" % (e[2], show(v)[:80]))
+            elif e[0] in ("write", "write-unknown-pointer") and "octets" in repr(e):
+                probs.append("octets written at an unknown index")
+        for i in range(n or 0):
+            want = ("op:Shr", COOKIE_U32, 24 - 8 * i) if i < 4 else "top:transaction_id[%d]" % (i - 4)
+            got = masks.get(i)
+            if got != [want]:
+                probs.append("octet %d is XOR-ed with %s, expected %s" % (i, [show(x)[:60] for x in got] if got else "nothing", show(want)[:60]))
+        extra = sorted(k for k in masks if n is None or k >= n)
+        if extra:
+            probs.append("octets %s written beyond the address" % extra)
+        k = "family=%s" % fam
+        if k not in fams or probs:
+            fams[k] = (probs, pa)
     for k, (probs, pa) in sorted(fams.items()):
-        ctx.ob(rule, "xor:%s" % k, not probs, "; ".join(probs) or "port ^ cookie>>16; octets masked as specified", info["where"], replay=None if not probs else pa.describe())
+        ctx.ob(rule, "xor:%s" % k, not probs, "; ".join(probs[:3]) or "port ^ cookie>>16; every octet XOR-ed exactly once with its mask byte", info["where"],
+               replay=None if not probs else pa.describe())
     ctx.floor(rule, "address families", len(fams), 2)
-    # transaction_id[i - 4]: the only indexing of transaction_id uses (enumerate index) - 4
-    ix = []
-    for bi, blk in enumerate(body.blocks):
-        for st in blk["stmts"]:
-            if st["k"] == "assign" and st["rv"]["k"] == "use" and st["rv"]["op"]["k"] in ("copy", "move"):
-                pl = st["rv"]["op"]["place"]
-                if body.debug_name(pl["l"]) == "transaction_id" and any(pe["k"] == "index" for pe in pl["p"]):
-                    il = [pe for pe in pl["p"] if pe["k"] == "index"][0].get("local", [pe for pe in pl["p"] if pe["k"] == "index"][0].get("l"))
-                    d = None
-                    for b2 in body.blocks:
-                        for s2 in b2["stmts"]:
-                            if s2["k"] == "assign" and s2["place"]["l"] == il and not s2["place"]["p"]:
-                                d = s2["rv"]
-                    ix.append(d)
-    def is_sub4(d):
-        if d is None:
-            return False
-        if d["k"] == "use" and d["op"]["k"] in ("copy", "move") and not d["op"]["place"]["p"]:
-            # through a temporary: find its definition (checked subtraction result .0)
-            for b2 in body.blocks:
-                for s2 in b2["stmts"]:
-                    if s2["k"] == "assign" and s2["place"]["l"] == d["op"]["place"]["l"] and not s2["place"]["p"]:
-                        return is_sub4(s2["rv"])
-            return False
-        if d["k"] == "use" and d["op"]["k"] in ("copy", "move") and d["op"]["place"]["p"]:
-            for b2 in body.blocks:
-                for s2 in b2["stmts"]:
-                    if s2["k"] == "assign" and s2["place"]["l"] == d["op"]["place"]["l"] and not s2["place"]["p"]:
-                        return is_sub4(s2["rv"])
-            return False
-        if d["k"] == "binop" and d["op"].startswith("Sub"):
-            b = d["b"]
-            return b["k"] == "const" and b.get("bits") is not None and int(b["bits"]) == 4
-        return False
-    ctx.ob(rule, "xor:transaction-id-index", len(ix) == 1 and is_sub4(ix[0]), "transaction_id is indexed %d time(s), by (index - 4): %s" % (len(ix), [is_sub4(d) for d in ix]), body.where())
     # both directions use the same involution
     paths, info = C.explore_fn(prog, "stun_rs::common::xor_encode", "x", [r"\{closure"])
     for pa in paths:
